@@ -4,7 +4,7 @@ CONSTANTS
   MaxIds = 2
   Vals = {1}
   MaxH = 3
-  MaxDue = 1
+  MaxDue = 2
   Defect = "none"
   DefectMod = "none"
 VIEW View
